@@ -267,7 +267,32 @@ func genProgram(t *rapid.T, fields map[string]any) ([]*gen.Node, *sgen.G) {
 			return gen.NSet("s", gen.NBin("<", k, gen.NFloat(1.5)))
 		}
 	}
-	g.Calls = []func(*sgen.G, int) *gen.Node{builtin, builtin, builtin, voidUse, keyUse}
+	// indexUse reads / writes list and map elements with keys around the boundaries
+	indexUse := func(g *sgen.G, d int) *gen.Node {
+		n := rapid.IntRange(0, 4).Draw(g.T, "listlen")
+		l := gen.NList()
+		for i := 0; i < n; i++ {
+			l.Args = append(l.Args, gen.NInt(int64(i)))
+		}
+		g.Feat["boundary-index"] = true
+		key := sgen.Lit(int64(rapid.IntRange(-n-2, n+2).Draw(g.T, "bkey")))
+		if rapid.IntRange(0, 5).Draw(g.T, "oddkey") == 0 {
+			key = g.ExprOf(sgen.TAny, 1)
+		}
+		switch rapid.IntRange(0, 4).Draw(g.T, "indexuse") {
+		case 0:
+			return gen.NIf([]*gen.Node{gen.NBool(true)}, [][]*gen.Node{{gen.NSet("il", l), gen.NSet("iv", gen.NIndex(gen.NIdent("il"), key))}}, nil, false)
+		case 1:
+			return gen.NIf([]*gen.Node{gen.NBool(true)}, [][]*gen.Node{{gen.NSet("il", l), gen.NAssign("=", []*gen.Node{gen.NIndex(gen.NIdent("il"), key)}, []*gen.Node{gen.NInt(1)})}}, nil, false)
+		case 2:
+			return gen.NIf([]*gen.Node{gen.NBool(true)}, [][]*gen.Node{{gen.NSet("il", gen.NList(l, l.Clone())), gen.NAssign("+=", []*gen.Node{gen.NIndex(gen.NIdent("il"), gen.NInt(0), key)}, []*gen.Node{gen.NInt(1)})}}, nil, false)
+		case 3:
+			return gen.NIf([]*gen.Node{gen.NBool(true)}, [][]*gen.Node{{gen.NSet("im", gen.NMap(gen.NStr("k"), l)), gen.NSet("iv", gen.NIndex(gen.NIdent("im"), gen.NStr("k"), key))}}, nil, false)
+		default:
+			return gen.NIf([]*gen.Node{gen.NBool(true)}, [][]*gen.Node{{gen.NSet("il", l), gen.NSet("iv", gen.NSlice(gen.NIdent("il"), key, nil, nil, false))}}, nil, false)
+		}
+	}
+	g.Calls = []func(*sgen.G, int) *gen.Node{builtin, builtin, builtin, voidUse, keyUse, indexUse}
 	prog := g.Program(rapid.IntRange(1, 8).Draw(t, "size"), rapid.IntRange(1, 3).Draw(t, "nest"))
 	return prog, g
 }
@@ -314,7 +339,7 @@ func TestBuiltinShapes(t *testing.T) {
 
 func TestFixedHostile(t *testing.T) {
 	progs := []string{
-		"a = [1,2,3]\nb = a[2:1]", "x = \"abc\"[1:3:9223372036854775807]", ".[0]", "a = .[0] + 1", ".[0] = 1", "a.b", "a = a.b", "l = [1]\nx = l[-9223372036854775807 - 1]",
+		"a = [1,2,3]\nb = a[2:1]", "l = [1,2,3]\nx = l[3]", "l = [1,2,3]\nl[3] = 1", "l = [1,2,3]\nx = l[-4]", "l = []\nx = l[0]", "l = [[1]]\nl[0][1] += 1", "m = {\"k\": [1]}\nx = m[\"k\"][1]", "x = \"abc\"[1:3:9223372036854775807]", ".[0]", "a = .[0] + 1", ".[0] = 1", "a.b", "a = a.b", "l = [1]\nx = l[-9223372036854775807 - 1]",
 		"rename(message, a)\nn = len(message)", "rename(a, message)\nuppercase(a)", "a = 9223372036854775807 + 1\nb = (-9223372036854775807 - 1) / (0 - 1)\nc = (-9223372036854775807 - 1) % (0 - 1)",
 		"x = [1,2][::-9223372036854775807 - 1]", "x = \"abc\"[-9223372036854775807 - 1:9223372036854775807:9223372036854775807]",
 		"for x in message { add_key(message, x) }", "m = {}\nm[\"a\"] = m\nadd_key(k, m)\nb = m == m", "l = [1]\nl[0] = l\nprobe(\"l\", l)\nn = len(l)",
